@@ -557,6 +557,9 @@ func meta(c Case) vr.Meta {
 		if s.OmitRowR {
 			lab["row-without-r"] = true
 		}
+		if s.OmitRowR && s.RowRFromCells {
+			lab["row-named-by-its-cells"] = true
+		}
 		if s.Prefix != "" {
 			lab["prefixed-namespace"] = true
 		}
